@@ -26,6 +26,9 @@ enum Call {
     Rules(Vec<(&'static str, i128)>),
     Func(&'static str),
     Funcs(Vec<&'static str>),
+    /// the same registrations with functions that declare themselves non-cacheable
+    FuncNc(&'static str),
+    FuncsNc(Vec<&'static str>),
     Symbol(&'static str, i128),
     Symbols(Vec<(&'static str, i128)>),
 }
@@ -47,6 +50,8 @@ fn alphabet() -> Vec<Call> {
         Call::Funcs(vec!["f", "g"]),
         Call::Funcs(vec!["g", "g"]),
         Call::Funcs(vec![]),
+        Call::FuncNc("f"),
+        Call::FuncsNc(vec!["g", "f"]),
         Call::Symbol("s", 11),
         Call::Symbol("s", 12),
         Call::Symbol("t", 13),
@@ -120,11 +125,11 @@ impl Model {
                 }
                 Ok(())
             }
-            Call::Func(n) => {
+            Call::Func(n) | Call::FuncNc(n) => {
                 *next_fn_id += 1;
                 self.add_func(n, *next_fn_id)
             }
-            Call::Funcs(v) => {
+            Call::Funcs(v) | Call::FuncsNc(v) => {
                 for n in v {
                     *next_fn_id += 1;
                     self.add_func(n, *next_fn_id)?;
@@ -154,6 +159,11 @@ fn func(name: &'static str, id: i128) -> ProbeFn {
     probe(name, true, &h)
 }
 
+fn func_nc(name: &'static str, id: i128) -> ProbeFn {
+    let h: Handler = Arc::new(move |_, _| (Ok(Value::Int(id)), 0));
+    probe(name, false, &h)
+}
+
 fn apply_real(b: Builder, c: &Call, next_fn_id: &mut i128) -> Result<Builder, reval::Error> {
     match c {
         Call::Rule(n, id) => b.with_rule(rule(n, *id)),
@@ -167,6 +177,18 @@ fn apply_real(b: Builder, c: &Call, next_fn_id: &mut i128) -> Result<Builder, re
             for n in v {
                 *next_fn_id += 1;
                 boxed.push(Box::new(func(n, *next_fn_id)));
+            }
+            b.with_functions(boxed)
+        }
+        Call::FuncNc(n) => {
+            *next_fn_id += 1;
+            b.with_function(func_nc(n, *next_fn_id))
+        }
+        Call::FuncsNc(v) => {
+            let mut boxed: Vec<Box<dyn UserFunction + Send + Sync + 'static>> = Vec::new();
+            for n in v {
+                *next_fn_id += 1;
+                boxed.push(Box::new(func_nc(n, *next_fn_id)));
             }
             b.with_functions(boxed)
         }
@@ -456,8 +478,101 @@ fn check_names(acc: &mut Acc, tier: Tier) -> u64 {
     names.len() as u64
 }
 
+/// words a grammar could plausibly learn as a new operator, built-in or literal
+const PLAUSIBLE_WORDS: [&str; 191] = [
+    "not", "xor", "mod", "div", "nor", "nand", "null", "nil", "is", "as", "let", "fn", "def", "var", "len", "abs", "min", "max", "sum", "avg", "any", "all", "map", "filter", "like", "matches", "between", "exists",
+    "empty", "upper", "lower", "length", "count", "first", "last", "keys", "values", "now", "today", "date", "time", "string", "str", "bool", "number", "list", "dict", "set", "type", "typeof", "case", "when", "switch",
+    "match", "default", "return", "while", "for", "do", "end", "begin", "try", "catch", "throw", "new", "this", "self", "super", "where", "select", "from", "join", "on", "by", "group", "order", "limit", "having", "union",
+    "distinct", "unless", "elif", "elsif", "otherwise", "neg", "negate", "plus", "minus", "times", "equals", "eq", "ne", "neq", "lt", "gt", "le", "ge", "lte", "gte", "startswith", "endswith", "starts_with", "ends_with",
+    "is_empty", "is_null", "is_not", "not_in", "bitand", "bitor", "bitxor", "shl", "shr", "pow", "sqrt", "ceil", "trunc", "sign", "concat", "substr", "replace", "split", "format", "parse", "to_int", "to_float", "to_dec",
+    "to_string", "to_str", "to_date", "seconds", "minutes", "hours", "days", "weeks", "months", "years", "millis", "epoch", "timestamp", "utc", "local", "decimal", "integer", "double", "real", "char", "byte", "bytes", "array",
+    "object", "struct", "enum", "tuple", "option", "result", "ok", "err", "error", "fail", "assert", "require", "ensure", "check", "rule", "rules", "facts", "fact", "symbol", "symbols", "meta", "name", "description", "import",
+    "include", "use", "pub", "const", "static", "mut", "ref", "move", "async", "await", "yield", "lambda", "func", "function", "call", "apply", "eval", "exec",
+];
+
+/// every lower-case word up to the bound, plus the plausible-word list (also capitalised and with
+/// an underscore): an accepted name must be refused-or-invocable — accepted by the builder means
+/// the rule text `name(i0)` reaches that very function
+fn word_sweep(tier: Tier) -> (Acc, u64) {
+    let max_len = tier.pick(3usize, 4usize);
+    let mut words: Vec<String> = Vec::new();
+    let mut frontier = vec![String::new()];
+    for _ in 0..max_len {
+        let mut next = Vec::new();
+        for w in &frontier {
+            for c in 'a'..='z' {
+                let mut t = w.clone();
+                t.push(c);
+                next.push(t);
+            }
+        }
+        words.extend(next.iter().cloned());
+        frontier = next;
+    }
+    for w in PLAUSIBLE_WORDS {
+        words.push(w.to_string());
+        words.push(w.to_uppercase());
+        words.push(format!("{}{}", w[..1].to_uppercase(), &w[1..]));
+        words.push(format!("{w}_"));
+        words.push(format!("is_{w}"));
+        words.push(format!("to_{w}"));
+    }
+    words.sort();
+    words.dedup();
+    let n = words.len() as u64;
+    let acc = words
+        .par_chunks(512)
+        .map(|chunk| {
+            let mut acc = Acc::new();
+            for name in chunk {
+                let leaked: &'static str = Box::leak(name.clone().into_boxed_str());
+                acc.count("executions", 1);
+                acc.count("words_checked", 1);
+                let want = name_ok(name);
+                let r = catch(|| ruleset().with_function(func(leaked, 1)).map(|_| ()));
+                let accepted = matches!(r, Ok(Ok(())));
+                let problem = match &r {
+                    Err(p) => Some(format!("panicked: {p}")),
+                    Ok(Ok(())) if !want => Some("accepted, but it is reserved".to_string()),
+                    Ok(Err(e)) if want => Some(format!("refused ({e}), but it is a well-formed, unreserved identifier")),
+                    _ => None,
+                };
+                if let Some(d) = problem {
+                    acc.violation(Violation { sig: format!("name/{name:?}/with_function"), what: format!("with_function({name:?}): {d}"), case: json!({"kind": "name", "name": name, "via": "with_function"}), size: name.len() });
+                }
+                if accepted {
+                    let seen = catch(|| {
+                        let e = Expr::parse(&format!("{name}(i0)")).map_err(|e| e.to_string())?;
+                        let rs = ruleset().with_rule(Rule::new("call", BTreeMap::new(), e)).and_then(|b| b.with_function(func_nc(leaked, 4242))).map_err(|e| e.to_string())?.build();
+                        let out = block_on(rs.evaluate_value(&Value::None))?.map_err(|e| e.to_string())?;
+                        Ok::<_, String>(out.into_iter().next().map(|o| o.value.map(|v| RV::from_value(&v)).map_err(|e| e.to_string())))
+                    });
+                    acc.count("names_called_from_rule_text", 1);
+                    match seen {
+                        Ok(Ok(Some(Ok(RV::Int(4242))))) => {}
+                        other => acc.violation(Violation {
+                            sig: format!("name-not-invocable-from-text/{name}"),
+                            what: format!("function {name:?} is accepted by the builder, but the rule text `{name}(i0)` does not reach it: {other:?}"),
+                            case: json!({"kind": "name", "name": name, "via": "text"}),
+                            size: name.len(),
+                        }),
+                    }
+                }
+                acc.outcome(format!("word:{}", if want { "accept" } else { "refuse" }));
+            }
+            acc
+        })
+        .reduce(Acc::new, |a, b| a.merge(b));
+    (acc, n)
+}
+
 pub fn run(tier: Tier) -> i32 {
     let mut rep = Report::new("C15", tier);
+    {
+        let (wacc, n) = word_sweep(tier);
+        rep.bound("word_sweep", format!("every lower-case word of length <= {}, {} plausible keyword words in 6 spellings: {n} names", tier.pick(3, 4), PLAUSIBLE_WORDS.len()));
+        rep.absorb(wacc);
+    }
     let alpha = alphabet();
     let max_len = tier.pick(5, 6);
     rep.bound("builder_calls", alpha.len());
